@@ -204,11 +204,12 @@ class ProgramRunner(object):
                 return o
         return None
 
-    def run(self, program, snapshot_every_step=False):
+    def run(self, program, snapshot_every_step=False, first=True, stop_on_error=True, label=''):
         t = self.tracer
         t.attach()
         try:
-            self.snapshot('init')
+            if first:
+                self.snapshot('init')
             for i, step in enumerate(program):
                 before = t.events
                 try:
@@ -217,14 +218,15 @@ class ProgramRunner(object):
                     self.error = {'step': i, 'op': step, 'type': type(e).__name__, 'msg': str(e)[:300],
                                   'in_continuum': _in_continuum(e.__traceback__)}
                     self.step_log.append('error')
-                    try:
-                        self.s.rollback()
-                    except Exception:
-                        pass
+                    if stop_on_error:
+                        try:
+                            self.s.rollback()
+                        except Exception:
+                            pass
                     break
                 self.step_log.append(res)
                 if t.events != before or step[0] in ('commit', 'rollback') or snapshot_every_step:
-                    self.snapshot('step %d %s' % (i, step[0]))
+                    self.snapshot('%sstep %d %s' % (label, i, step[0]))
         finally:
             t.detach()
         return self.observation()
